@@ -439,15 +439,10 @@ func runFault(c *faultCase, pl *plane, tl *tally) bool {
 
 	var failedPut, failedDel bool
 	ctx := func() string {
-		switch {
-		case failedPut && failedDel:
-			return "after-failed-put-and-failed-delete"
-		case failedPut:
-			return "after-failed-put"
-		case failedDel:
-			return "after-failed-delete"
+		if failedPut || failedDel {
+			return "after-refused-map-write"
 		}
-		return "no-failed-write"
+		return "no-refused-write"
 	}
 	stale := map[string]string{}   // subscriber -> how its kernel entry became orphaned
 	putPubs := map[string]bool{}   // public addresses that had a free block when a Put was refused
@@ -485,6 +480,7 @@ func runFault(c *faultCase, pl *plane, tl *tally) bool {
 	}
 
 	pre := snapshot()
+	overlapsBefore := map[string]bool{}
 	for k, op := range c.Ops {
 		comp := ""
 		opName := ""
@@ -558,7 +554,7 @@ func runFault(c *faultCase, pl *plane, tl *tally) bool {
 				for _, o := range others {
 					if ob := held[o]; ob.overlaps(v.B) {
 						cls := overlapClass(g, held, v.B, ob)
-						if ctx() != "no-failed-write" {
+						if failedPut || failedDel {
 							cls += "/" + ctx()
 						}
 						sk.report(compAlloc, "no-overlap", cls, fmt.Sprintf("alloc(%s) returned %s while %s still holds %s", subject, v.B, o, ob))
@@ -724,7 +720,17 @@ func runFault(c *faultCase, pl *plane, tl *tally) bool {
 		}
 
 		// ---- at all times: blocks held are pairwise disjoint, by the getters and in the kernel table
-		judgeDisjoint(sk, tl, comp, ctx(), names, held, stale, post)
+		// (an overlap is reported where it arises, not again after every later operation)
+		now := judgeDisjoint(tl, comp, names, held, stale, post)
+		for _, f := range now {
+			if !overlapsBefore[f.key] {
+				sk.report(f.comp, f.rule, f.cls, f.desc)
+			}
+		}
+		overlapsBefore = map[string]bool{}
+		for _, f := range now {
+			overlapsBefore[f.key] = true
+		}
 
 		// ---- the log, read in order
 		lg.Flush()
@@ -783,9 +789,11 @@ func runFault(c *faultCase, pl *plane, tl *tally) bool {
 	return followed
 }
 
+type overlapFinding struct{ key, comp, rule, cls, desc string }
+
 // judgeDisjoint: no two subscribers hold overlapping ranges on one public address - by the getters, in the
 // kernel table, and across the two (an entry of one subscriber against the getter block of another).
-func judgeDisjoint(sk *sink, tl *tally, comp, ctx string, names []string, held map[string]blk, stale map[string]string, s fsnap) {
+func judgeDisjoint(tl *tally, comp string, names []string, held map[string]blk, stale map[string]string, s fsnap) (out []overlapFinding) {
 	for i := 0; i < len(names); i++ {
 		for j := i + 1; j < len(names); j++ {
 			a, b := s.get[names[i]], s.get[names[j]]
@@ -794,9 +802,13 @@ func judgeDisjoint(sk *sink, tl *tally, comp, ctx string, names []string, held m
 			}
 			tl.add("fault_getter_pairs_judged_disjoint", 1)
 			if a.overlaps(*b) {
-				sk.report(comp, "no-overlap", "getters-name-two-holders/"+ctx, fmt.Sprintf("GetAllocation(%s) = %s and GetAllocation(%s) = %s", names[i], *a, names[j], *b))
-				i = len(names)
-				break
+				cls := "getters-name-two-holders"
+				_, h1 := held[names[i]]
+				_, h2 := held[names[j]]
+				if !h1 || !h2 {
+					cls = "getters-name-a-holder-that-was-never-told"
+				}
+				out = append(out, overlapFinding{fmt.Sprint("g|", names[i], *a, names[j], *b), comp, "no-overlap", cls, fmt.Sprintf("GetAllocation(%s) = %s and GetAllocation(%s) = %s", names[i], *a, names[j], *b)})
 			}
 		}
 	}
@@ -816,9 +828,9 @@ func judgeDisjoint(sk *sink, tl *tally, comp, ctx string, names []string, held m
 			case "failed-put":
 				return compAlloc, "entry-of-failed-allocation-overlaps-later-holder"
 			}
-			return comp, "orphaned-entry-overlaps-holder/" + ctx
+			return comp, "orphaned-entry-overlaps-holder"
 		}
-		return comp, "entries-of-two-holders-overlap/" + ctx
+		return comp, "entries-of-two-holders-overlap"
 	}
 	for i := 0; i < len(keys); i++ {
 		for j := i + 1; j < len(keys); j++ {
@@ -826,8 +838,7 @@ func judgeDisjoint(sk *sink, tl *tally, comp, ctx string, names []string, held m
 			tl.add("fault_dataplane_pairs_judged_disjoint", 1)
 			if a.overlaps(b) {
 				cp, cls := classify(keys[i], keys[j])
-				sk.report(cp, "no-overlap-dataplane", cls, fmt.Sprintf("subscriber_nat maps %s to %s and %s to %s", keys[i], a, keys[j], b))
-				return
+				out = append(out, overlapFinding{fmt.Sprint("k|", keys[i], a, keys[j], b), cp, "no-overlap-dataplane", cls, fmt.Sprintf("subscriber_nat maps %s to %s and %s to %s", keys[i], a, keys[j], b)})
 			}
 		}
 	}
@@ -842,11 +853,11 @@ func judgeDisjoint(sk *sink, tl *tally, comp, ctx string, names []string, held m
 			}
 			if s.ker[kn].overlaps(*gb) {
 				cp, cls := classify(kn, gn)
-				sk.report(cp, "no-overlap-dataplane", cls, fmt.Sprintf("subscriber_nat maps %s to %s while GetAllocation(%s) = %s", kn, s.ker[kn], gn, *gb))
-				return
+				out = append(out, overlapFinding{fmt.Sprint("x|", kn, s.ker[kn], gn, *gb), cp, "no-overlap-dataplane", cls, fmt.Sprintf("subscriber_nat maps %s to %s while GetAllocation(%s) = %s", kn, s.ker[kn], gn, *gb)})
 			}
 		}
 	}
+	return out
 }
 
 func unionKeys(a, b map[string]blk) map[string]struct{} {
@@ -1027,14 +1038,14 @@ func enumerateFaults(depth, maxSubs int, fn func(ops []fop)) {
 // TestFaultExhaustive: every such history to the stated depth, for 1-2 public addresses and pools of 1, 2, 3 and 64 blocks.
 func TestFaultExhaustive(t *testing.T) {
 	depth := run.Pick(5, 7) // every configuration
-	deep := run.Pick(6, 8)  // quick: five configurations one level deeper; thorough: the 2-block pool on one address
+	deep := run.Pick(6, 8)  // quick: four configurations one level deeper; thorough: the 2-block pool on one address
 	type combo struct {
 		g    geom
 		nPub int
 	}
 	deepCombos := []combo{{faultGeoms[0], 1}}
 	if !run.Thorough() {
-		deepCombos = []combo{{faultGeoms[0], 1}, {faultGeoms[0], 2}, {faultGeoms[1], 2}, {faultGeoms[2], 1}, {faultGeoms[3], 1}}
+		deepCombos = []combo{{faultGeoms[0], 1}, {faultGeoms[1], 2}, {faultGeoms[2], 1}, {faultGeoms[3], 2}}
 	}
 	ch := make(chan []*faultCase, 64)
 	total := 0
@@ -1077,7 +1088,7 @@ func TestFaultExhaustive(t *testing.T) {
 
 // TestFaultRandom: seeded histories over every fault kind and every map-writing operation.
 func TestFaultRandom(t *testing.T) {
-	n := run.Pick(3000, 60000)
+	n := run.Pick(3000, 40000)
 	ch := make(chan []*faultCase, 64)
 	go func() {
 		defer close(ch)
